@@ -182,7 +182,8 @@ EXPORT errno_t _mbstowcs_s_chk(size_t *restrict retvalp, wchar_t *restrict dest,
     orig_dest = dest;
     errno = 0;
 
-    *retvalp = mbstowcs(dest, src, len);
+    /* the C library may store up to len elements: never more than dmax */
+    *retvalp = mbstowcs(dest, src, (dest && len > dmax) ? dmax : len);
 
     if (likely(*retvalp < dmax)) {
         if (dest) {
